@@ -106,24 +106,31 @@ def port_addressing_static_ports():
     ni = sym.concretize(sym.int("n_in", 0, 2))
     no = sym.concretize(sym.int("n_out", 0, 2))
     m = Module()
-    decl = m.declare_function("callee", tys.PolyFuncType([], tys.FunctionType([B] * ni, [B] * no)))
+    if sym.concretize(sym.bool("row_polymorphic_callee")):
+        # forall r. r ++ [Bool]*ni -> [Bool]*no : the polymorphic body has one more "input" (the row variable) than ... or fewer
+        decl = m.declare_function("callee", tys.PolyFuncType([tys.ListParam(tys.TypeTypeParam(tys.TypeBound.Any))],
+                                                              tys.FunctionType([tys.RowVariable(0, tys.TypeBound.Any)], [B] * no)))
+        inst, targs = tys.FunctionType([B] * ni, [B] * no), [tys.SequenceArg([tys.TypeTypeArg(B)] * ni)]
+    else:
+        decl = m.declare_function("callee", tys.PolyFuncType([], tys.FunctionType([B] * ni, [B] * no)))
+        inst, targs = None, None
     f = m.define_function("main", [B] * ni, [])
     which = sym.concretize(sym.int("which", 0, 2))
     ord_out = sym.concretize(sym.bool("order_out"))
     ord_in = sym.concretize(sym.bool("order_in"))
     if which == 0:
-        n = f.call(decl, *f.inputs())
+        n = f.call(decl, *f.inputs(), instantiation=inst, type_args=targs)
         nin, nout = ni, no
         used = [j for j in range(no) if sym.concretize(sym.bool(f"use_out{j}"))]
     elif which == 1:
-        n = f.load_function(decl)
+        n = f.load_function(decl, instantiation=inst, type_args=targs)
         nin, nout = 0, 1
         used = [0] if sym.concretize(sym.bool("use_out0")) else []
     else:
         n = f.load(val.TRUE)
         nin, nout = 0, 1
         used = [0] if sym.concretize(sym.bool("use_out0")) else []
-    outs_t = [B] * len(used) if which != 1 else ([tys.FunctionType([B] * ni, [B] * no)] if used else [])
+    outs_t = [B] * len(used) if which != 1 else ([f.hugr.port_type(n.out(0))] if used else [])
     sink = f.add_op(ops.Custom("sink", tys.FunctionType(outs_t, []), extension="e"), *[n.out(j) for j in used])
     if ord_out:
         f.add_state_order(n, sink)
